@@ -3,6 +3,7 @@ package h
 import (
 	"encoding/json"
 	"fmt"
+	"github.com/netflix/rend/verifshim/vsync"
 	"time"
 
 	"verif/refmodel"
@@ -16,6 +17,7 @@ type PipeScenario struct {
 	Cfg    Cfg       `json:"cfg"`
 	Prefix []wire.Op `json:"prefix"`
 	Pipe   []wire.Op `json:"pipe"`
+	Port   int       `json:"port,omitempty"` // 1 = the batch port of an l1l2b deployment
 }
 
 func init() {
@@ -66,6 +68,10 @@ func pipeAlphabet(cfg Cfg) []wire.Op {
 			wire.Op{Kind: "set", Key: "a", Val: "w", QuietW: true},
 			wire.Op{Kind: "add", Key: "a", Val: "v", QuietW: true},
 			wire.Op{Kind: "append", Key: "c", Val: "v", QuietW: true},
+			// quiet writes are silent only on success: a refusal must still be reported
+			wire.Op{Kind: "replace", Key: "c", Val: "v", QuietW: true}, // always refused (not found)
+			wire.Op{Kind: "replace", Key: "a", Val: "r", QuietW: true},
+			wire.Op{Kind: "prepend", Key: "c", Val: "v", QuietW: true},
 		)
 	} else {
 		a = append(a,
@@ -82,12 +88,22 @@ func pipeAlphabet(cfg Cfg) []wire.Op {
 
 // RunPipe executes one pipeline scenario and applies the reply-discipline oracle.
 func RunPipe(sc PipeScenario) (fs []Finding, trace string) {
+	vsync.TakeDoublePuts()
+	defer func() {
+		if f := doublePut("C08"); f != nil {
+			fs = append(fs, *f)
+		}
+	}()
 	w := NewWorld(sc.Cfg)
 	defer w.Release()
 	m := refmodel.New(uint32(time.Now().Unix()))
-	s := w.Connect(0)
+	s := w.Connect(sc.Port)
 	add := func(clause, what string, op wire.Op, exp, got string) {
 		fs = append(fs, Finding{Sig: fmt.Sprintf("C08 %s op=%s cfg=%s exp=%s got=%s", clause, opTag(op), cfgClass(sc.Cfg), exp, got), What: what, Clause: clause})
+	}
+	pre := s
+	if sc.Port != 0 {
+		pre = w.Connect(0) // the prepared state is written through the main port (fills both tiers)
 	}
 	for _, op := range sc.Prefix {
 		if op.Kind == "evict" { // the cache's own eviction: the model does not change
@@ -98,9 +114,9 @@ func RunPipe(sc PipeScenario) (fs []Finding, trace string) {
 			}
 			continue
 		}
-		op.Opaque = uint32(0x100 + 16*len(s.Ops))
+		op.Opaque = uint32(0x100 + 16*len(pre.Ops))
 		ApplyModel(m, sc.Cfg.Proto, op)
-		s.Do(op)
+		pre.Do(op)
 	}
 	npre := len(s.Ops)
 	ops := append(append([]wire.Op{}, sc.Pipe...), wire.Op{Kind: "get", Key: "a"}, wire.Op{Kind: "noop"})
@@ -201,39 +217,42 @@ func runC08(c *rt.Ctx) {
 				if f == 0 {
 					c.State(1) // one prepared backend state per (configuration, prefix)
 				}
-				var rec func(p []wire.Op)
-				rec = func(p []wire.Op) {
-					sc := PipeScenario{Cfg: cfg, Prefix: pre, Pipe: p}
-					var fs []Finding
-					var tr string
-					InBubble(c.T, func() { fs, tr = RunPipe(sc) })
-					c.Eval(1)
-					c.Trace(1)
-					c.Trans(int64(len(p) + 2))
-					key := fmt.Sprintf("%s|%d|%v", cfg, pi, opsStrings(p))
-					c.Distinct(key)
-					fails := 0
-					for _, o := range p {
-						if o.Kind == "raw" || o.Kind == "unknown" || o.Key == "c" || o.Kind == "add" || o.Kind == "append" || o.Kind == "delete" || o.Kind == "touch" {
-							fails++
+				for _, port := range cfg.Ports() {
+					port := port
+					var rec func(p []wire.Op)
+					rec = func(p []wire.Op) {
+						sc := PipeScenario{Cfg: cfg, Prefix: pre, Pipe: p, Port: port}
+						var fs []Finding
+						var tr string
+						InBubble(c.T, func() { fs, tr = RunPipe(sc) })
+						c.Eval(1)
+						c.Trace(1)
+						c.Trans(int64(len(p) + 2))
+						key := fmt.Sprintf("%s|%d|%d|%v", cfg, port, pi, opsStrings(p))
+						c.Distinct(key)
+						fails := 0
+						for _, o := range p {
+							if o.Kind == "raw" || o.Kind == "unknown" || o.Key == "c" || o.Kind == "add" || o.Kind == "append" || o.Kind == "delete" || o.Kind == "touch" {
+								fails++
+							}
+						}
+						if fails > 0 && len(p) > 1 {
+							c.Nontrivial(key)
+						}
+						if len(p) == maxLen && (item%97 == 0) {
+							c.Sample(map[string]interface{}{"trace": tr})
+						}
+						for _, f := range fs {
+							c.Violation(f.Sig, f.What+"\n"+tr, sc)
+						}
+						if len(p) < maxLen {
+							for _, nx := range alpha {
+								rec(append(append([]wire.Op{}, p...), nx))
+							}
 						}
 					}
-					if fails > 0 && len(p) > 1 {
-						c.Nontrivial(key)
-					}
-					if len(p) == maxLen && (item%97 == 0) {
-						c.Sample(map[string]interface{}{"trace": tr})
-					}
-					for _, f := range fs {
-						c.Violation(f.Sig, f.What+"\n"+tr, sc)
-					}
-					if len(p) < maxLen {
-						for _, nx := range alpha {
-							rec(append(append([]wire.Op{}, p...), nx))
-						}
-					}
+					rec([]wire.Op{alpha[f]})
 				}
-				rec([]wire.Op{alpha[f]})
 			}
 		}
 	}
